@@ -204,6 +204,7 @@ type viol struct{ key, msg string }
 
 type outcome struct {
 	v           *viol
+	openOps     int64  // operations counted when the initial open (and first election) returned
 	fsOps       int64  // operations counted until the crash / end
 	frozenStep  int64  // step executing at the freeze; len(hist) = after the history; -1 = during the initial open
 	frozenOp    string // the operation that was about to run
@@ -258,6 +259,7 @@ func runOne(ref *reference, hist string, crashAt int64, trace bool) (out outcome
 	if err != nil {
 		return fail("open-failed", "initial open: %v", err)
 	}
+	out.openOps = cfs.n.Load()
 	w := 0             // writes started so far
 	term := int64(0)   // last term whose UpdateTerm was started
 	var started []int64 // all terms whose UpdateTerm was started
@@ -417,26 +419,37 @@ func runOne(ref *reference, hist string, crashAt int64, trace bool) (out outcome
 
 // ---------------------------------------------------------------------------------------
 
-func histories(tier string) []string {
-	if tier != "thorough" {
-		return []string{"WWW", "WFWW", "TWWTW", "WSWW", "WWCW", "TWFWSWCWT", "WTW", "WWWWWF", "CWCWW", "SWTFCWWW"}
-	}
-	// all sequences of length 3..6 over {W,T,F,S,C} with 3..5 writes
+// allSeq returns every sequence of length 3..maxLen over the alphabet with 3..5 log entries
+// (letters in writes), followed by the extra hand-written (longer) ones.
+func allSeq(alphabet, writes string, maxLen int, extra ...string) []string {
 	var out []string
 	var rec func(s string)
 	rec = func(s string) {
-		if n := countWrites(s); len(s) >= 3 && n >= 3 && n <= 5 {
+		n := 0
+		for _, c := range s {
+			if strings.ContainsRune(writes, c) {
+				n++
+			}
+		}
+		if len(s) >= 3 && n >= 3 && n <= 5 {
 			out = append(out, s)
 		}
-		if len(s) == 6 {
+		if len(s) == maxLen {
 			return
 		}
-		for _, c := range "WTFSC" {
+		for _, c := range alphabet {
 			rec(s + string(c))
 		}
 	}
 	rec("")
-	return out
+	return append(out, extra...)
+}
+
+func histories(tier string) []string {
+	if tier != "thorough" {
+		return allSeq("WTFSC", "W", 5, "TWFWSWCWT", "SWTFCWWW", "CWCWWF")
+	}
+	return allSeq("WTFSC", "W", 6, "TWFWSWCWT", "SWTFCWWW")
 }
 
 type job struct {
@@ -447,27 +460,20 @@ type job struct {
 
 type runner func(ref *reference, hist string, crashAt int64, trace bool) outcome
 
-var suites = map[string]runner{"db": runOne, "leader": runLeader}
+var suites = map[string]runner{"db": runOne, "leader": runLeader, "follower": runFollower}
+
+func followerHistories(tier string) []string {
+	if tier != "thorough" {
+		return allSeq("WPTC", "WP", 4, "WPTPWCW", "PPPPW", "WCPTW")
+	}
+	return allSeq("WPTC", "WP", 5, "WPTPWCW")
+}
 
 func leaderHistories(tier string) []string {
 	if tier != "thorough" {
-		return []string{"WWW", "WEWW", "WSWW", "WWCW", "WEWSWCW", "WWWWW"}
+		return allSeq("WESC", "W", 4, "WEWSWCW", "WWWWW", "WCWEW")
 	}
-	var out []string
-	var rec func(s string)
-	rec = func(s string) {
-		if n := countWrites(s); len(s) >= 3 && n >= 3 && n <= 5 {
-			out = append(out, s)
-		}
-		if len(s) == 5 {
-			return
-		}
-		for _, c := range "WESC" {
-			rec(s + string(c))
-		}
-	}
-	rec("")
-	return out
+	return allSeq("WESC", "W", 5, "WEWSWCW")
 }
 
 func main() {
@@ -499,16 +505,25 @@ func main() {
 	for _, h := range leaderHistories(run.Tier) {
 		hs = append(hs, job{"leader", h, -1})
 	}
+	nLeader := len(hs) - nDB
+	for _, h := range followerHistories(run.Tier) {
+		hs = append(hs, job{"follower", h, -1})
+	}
 	budget := 70 * time.Second
 	if run.Tier == "thorough" {
 		budget = 20 * time.Minute
+	}
+	if v := os.Getenv("VERIF_BUDGET_S"); v != "" {
+		var sec int
+		fmt.Sscanf(v, "%d", &sec)
+		budget = time.Duration(sec) * time.Second
 	}
 	deadline := time.Now().Add(budget)
 
 	// counting runs
 	type hinfo struct {
-		n     int64
-		kinds map[string]int64
+		n, open int64
+		kinds   map[string]int64
 	}
 	info := make([]hinfo, len(hs))
 	{
@@ -525,7 +540,7 @@ func main() {
 					run.Violate(ev.Violation{Key: o.v.key, Harness: "c07-" + h.suite, Message: fmt.Sprintf("history %s without crash inside: %s", h.hist, o.v.msg),
 						Replay: map[string]any{"suite": h.suite, "history": h.hist, "crash_at": -1}})
 				}
-				info[i] = hinfo{o.fsOps, o.kinds}
+				info[i] = hinfo{o.fsOps, o.openOps, o.kinds}
 			}(i, h)
 		}
 		wg.Wait()
@@ -607,8 +622,20 @@ func main() {
 			}
 		}()
 	}
+	// the crash points inside the initial open (+ first election) do not depend on the history:
+	// they are enumerated for the first history of each suite only
+	openDone := map[string]bool{}
+	var skippedOpen int64
 	for i, h := range hs {
-		for j := int64(0); j <= info[i].n+margin; j++ {
+		from := int64(0)
+		if openDone[h.suite] {
+			if from = info[i].open - margin; from < 0 {
+				from = 0
+			}
+			skippedOpen += from
+		}
+		openDone[h.suite] = true
+		for j := from; j <= info[i].n+margin; j++ {
 			jobs <- job{h.suite, h.hist, j}
 		}
 	}
@@ -619,12 +646,15 @@ func main() {
 	}
 	run.Add("evaluations", evals)
 	run.Add("histories_db_alone", int64(nDB))
-	run.Add("histories_real_leader_rf1", int64(len(hs)-nDB))
+	run.Add("histories_real_leader_rf1", int64(nLeader))
+	run.Add("histories_real_follower", int64(len(hs)-nDB-nLeader))
+	run.Add("evaluations_real_follower", perSuite["follower"])
 	run.Add("evaluations_db_alone", perSuite["db"])
 	run.Add("evaluations_real_leader_rf1", perSuite["leader"])
 	run.Add("fs_operations_in_uncrashed_runs", totalOps)
 	run.Add("crash_points_after_last_operation", beyond)
 	run.Add("crash_points_inside_initial_open", insideOpen)
+	run.Add("crash_points_inside_initial_open_not_repeated_per_history", skippedOpen)
 	run.Add("flush_or_close_returned_but_offset_lost", flushLost)
 	run.Add("commit_offsets_observed_in_batches", offsetsSeen)
 	var ks []string
@@ -642,16 +672,16 @@ func main() {
 	run.Coverage["commit_offset_after_restart_histogram"] = cd
 	run.Coverage["crashed_during_step_histogram"] = stepDist
 	if run.Tier == "thorough" {
-		run.Coverage["histories_rule"] = "db alone: all sequences of length 3..6 over {W,T,F,S,C} with 3..5 writes; real leader: all sequences of length 3..5 over {W,E,S,C} with 3..5 writes"
+		run.Coverage["histories_rule"] = "(+ a few longer hand-written ones) db alone: all sequences of length 3..6 over {W,T,F,S,C} with 3..5 writes; real leader: all sequences of length 3..5 over {W,E,S,C} with 3..5 writes; real follower: all sequences of length 3..5 over {W,P,T,C} with 3..5 appends"
 	} else {
-		run.Coverage["histories_list_db_alone"] = histories(run.Tier)
-		run.Coverage["histories_list_real_leader"] = leaderHistories(run.Tier)
+		run.Coverage["histories_rule"] = "(+ a few longer hand-written ones) db alone: all sequences of length 3..5 over {W,T,F,S,C} with >=3 writes; real leader: length 3..4 over {W,E,S,C}; real follower: length 3..4 over {W,P,T,C}"
 	}
 	for _, s := range nondet {
 		run.Note("nondeterministic (not reported as violation): " + s)
 	}
 	run.Sample(map[string]any{"suite": "db", "history": hs[nDB/2].hist, "fs_ops": info[nDB/2].n, "meaning": "W=ProcessWrite of the next log entry, T=UpdateTerm(term+1), F=kv.Flush, S=db.Snapshot, C=graceful Close+reopen"})
-	run.Sample(map[string]any{"suite": "leader", "history": hs[len(hs)-1].hist, "fs_ops": info[len(hs)-1].n, "meaning": "W=WriteBlock, E=NewTerm+BecomeLeader, S=db.Snapshot, C=Close+new controller+election; after the crash: new controller, election, applyAllEntriesIntoDB"})
+	run.Sample(map[string]any{"suite": "follower", "history": hs[len(hs)-1].hist, "fs_ops": info[len(hs)-1].n, "meaning": "W=Append(entry k, commit=k) and wait for apply, P=Append(entry k, commit=k-1), T=NewTerm + new stream, C=Close + new controller + NewTerm + stream; after the crash: new controller, NewTerm, stream, one more append committing everything"})
+	run.Sample(map[string]any{"suite": "leader", "history": hs[nDB+nLeader-1].hist, "fs_ops": info[nDB+nLeader-1].n, "meaning": "W=WriteBlock, E=NewTerm+BecomeLeader, S=db.Snapshot, C=Close+new controller+election; after the crash: new controller, election, applyAllEntriesIntoDB"})
 	run.Sample(map[string]any{"log": func() []string {
 		var o []string
 		for _, e := range ref.log {
